@@ -412,6 +412,12 @@ impl<T: Config> P2PSession<T> {
         // check time sync between clients and send wait recommendation, if appropriate
         self.check_wait_recommendation();
 
+        // desync reports and wait recommendations are pushed without passing through
+        // handle_event(): enforce the documented event queue bound for them as well
+        while self.event_queue.len() > MAX_EVENT_QUEUE_SIZE {
+            self.event_queue.pop_front();
+        }
+
         Ok(requests)
     }
 
